@@ -196,6 +196,8 @@ def make_quad_mesh(points, size_u, size_v):
     vertices = []
     for pt in points:
         vrt = Vertex(*pt, id=vertex_idx)
+        # Parametric position of the vertex (points are ordered with the v index changing the fastest)
+        vrt.uv = [float(vertex_idx // size_v) / float(max(size_u - 1, 1)), float(vertex_idx % size_v) / float(max(size_v - 1, 1))]
         vertices.append(vrt)
         vertex_idx += 1
 
